@@ -198,5 +198,4 @@ Eval vm_compute in (length cases, length (filter (fun c => negb (ok c)) cases)).
 
 
 def replay(payload):
-    print("replay: re-run ./vcheck C18 quick")
-    return 1
+    return "RERUN"      # vcheck re-runs this check with the recorded tier and seed and looks for the same violation
